@@ -8,7 +8,9 @@
    The grid graph (gstep): states (grid point, direction 0 N / 1 E / 2 S / 3 W); a move goes to the neighbouring
    Hanan-grid line in the current direction, costs the distance, and is allowed iff the grid segment is not blocked
    (hblocked / vblocked: it does not run through the interior of the UNION of the rectangles); a turn to a
-   perpendicular direction costs pen and is allowed everywhere except at dst.  Walks are arbitrary (any number of
+   perpendicular direction costs pen and is allowed everywhere except at dst and at src (`noturn src dst`: a state (src, d)
+   means "about to leave src travelling d", a state (dst, d) "arrived at dst travelling d"; the sections below are generic in
+   the no-turn predicate nt).  Walks are arbitrary (any number of
    steps, revisits allowed), so this is "minimum over all orthogonal paths on that grid".
    Proof: relaxation-fixpoint argument.  After a round whose signature equals the one before, every move and turn
    inequality holds in the resulting grid (the E/W inequalities were established by the row sweeps against the N/S
@@ -140,7 +142,7 @@ Qed.
 (* ------------------------------------------------------------------ one directional sweep *)
 Section SweepFacts.
   Variables (get : cell -> val) (set : cell -> val -> cell) (p1 p2 : cell -> val) (mk : Z -> zp) (pen : Z)
-            (blocked : Z -> Z -> bool) (dst : zp).
+            (blocked : Z -> Z -> bool) (nt : zp -> bool).
   Hypothesis get_set : forall c v, get (set c v) = v.
 
   Definition turn_of (x : Z) (c : cell) : val := vturn (vmin (p1 c) (p2 c)) pen (mk x).
@@ -148,10 +150,10 @@ Section SweepFacts.
   (* cell-wise relation between a line and its sweep *)
   Definition sw_rel (a b : Z * cell) : Prop :=
     fst b = fst a /\ (exists v, snd b = set (snd a) v) /\ vle (get (snd b)) (get (snd a)) /\
-    (zp_eqb (mk (fst a)) dst = false -> vle (get (snd b)) (turn_of (fst a) (snd a))).
+    (nt (mk (fst a)) = false -> vle (get (snd b)) (turn_of (fst a) (snd a))).
 
   Lemma sweep_rel : forall line carry prev first,
-    Forall2 sw_rel line (sweep get set p1 p2 mk pen blocked dst carry prev first line).
+    Forall2 sw_rel line (sweep get set p1 p2 mk pen blocked nt carry prev first line).
   Proof.
     induction line as [|[x c] t IH]; intros carry prev first; cbn [sweep]; constructor; [|apply IH].
     unfold sw_rel. cbn [fst snd]. split; [reflexivity|]. split; [eexists; reflexivity|].
@@ -161,7 +163,7 @@ Section SweepFacts.
   Qed.
 
   Lemma sweep_adj : forall line carry prev first a b,
-    consecutive (sweep get set p1 p2 mk pen blocked dst carry prev first line) a b ->
+    consecutive (sweep get set p1 p2 mk pen blocked nt carry prev first line) a b ->
     blocked (fst a) (fst b) = false ->
     vle (get (snd b)) (vadd (get (snd a)) (Z.abs (fst b - fst a))).
   Proof.
@@ -180,7 +182,7 @@ Definition cnn (c : cell) : Prop := vnn (cN c) /\ vnn (cE c) /\ vnn (cS c) /\ vn
 
 Section DoubleSweep.
   Variables (getF : cell -> val) (setF : cell -> val -> cell) (getB : cell -> val) (setB : cell -> val -> cell)
-            (p1 p2 : cell -> val) (mk : Z -> zp) (pen : Z) (blocked : Z -> Z -> bool) (dst : zp).
+            (p1 p2 : cell -> val) (mk : Z -> zp) (pen : Z) (blocked : Z -> Z -> bool) (nt : zp -> bool).
   Hypothesis getF_setF : forall c v, getF (setF c v) = v.
   Hypothesis getB_setF : forall c v, getB (setF c v) = getB c.
   Hypothesis p1_setF : forall c v, p1 (setF c v) = p1 c.
@@ -199,22 +201,22 @@ Section DoubleSweep.
   Hypothesis nn_p2 : forall c, cnn c -> vnn (p2 c).
 
   Definition dsweep (l : list (Z * cell)) : list (Z * cell) :=
-    rev (sweep getB setB p1 p2 mk pen blocked dst None 0 true
-           (rev (sweep getF setF p1 p2 mk pen blocked dst None 0 true l))).
+    rev (sweep getB setB p1 p2 mk pen blocked nt None 0 true
+           (rev (sweep getF setF p1 p2 mk pen blocked nt None 0 true l))).
 
   Definition ds_rel (a b : Z * cell) : Prop :=
     fst b = fst a /\ p1 (snd b) = p1 (snd a) /\ p2 (snd b) = p2 (snd a) /\
     vle (getF (snd b)) (getF (snd a)) /\ vle (getB (snd b)) (getB (snd a)) /\
-    (zp_eqb (mk (fst a)) dst = false ->
+    (nt (mk (fst a)) = false ->
        vle (getF (snd b)) (turn_of p1 p2 mk pen (fst a) (snd a)) /\
        vle (getB (snd b)) (turn_of p1 p2 mk pen (fst a) (snd a))).
 
   Lemma dsweep_rel l : Forall2 ds_rel l (dsweep l).
   Proof.
     unfold dsweep.
-    set (l1 := sweep getF setF p1 p2 mk pen blocked dst None 0 true l).
-    pose proof (sweep_rel getF setF p1 p2 mk pen blocked dst getF_setF l None 0 true) as F1. fold l1 in F1.
-    pose proof (sweep_rel getB setB p1 p2 mk pen blocked dst getB_setB (rev l1) None 0 true) as F2.
+    set (l1 := sweep getF setF p1 p2 mk pen blocked nt None 0 true l).
+    pose proof (sweep_rel getF setF p1 p2 mk pen blocked nt getF_setF l None 0 true) as F1. fold l1 in F1.
+    pose proof (sweep_rel getB setB p1 p2 mk pen blocked nt getB_setB (rev l1) None 0 true) as F2.
     apply Forall2_rev' in F2. rewrite rev_involutive in F2.
     eapply Forall2_impl'; [|exact (Forall2_comp _ _ _ _ _ F1 F2)].
     intros a c (b & (A1 & (v1 & A2) & A3 & A4) & (B1 & (v2 & B2) & B3 & B4)).
@@ -230,42 +232,42 @@ Section DoubleSweep.
     vle (getB (snd a)) (vadd (getB (snd b)) (Z.abs (fst b - fst a))).
   Proof.
     unfold dsweep.
-    set (l1 := sweep getF setF p1 p2 mk pen blocked dst None 0 true l).
+    set (l1 := sweep getF setF p1 p2 mk pen blocked nt None 0 true l).
     intros C Hb. split.
-    - pose proof (sweep_rel getB setB p1 p2 mk pen blocked dst getB_setB (rev l1) None 0 true) as F2.
+    - pose proof (sweep_rel getB setB p1 p2 mk pen blocked nt getB_setB (rev l1) None 0 true) as F2.
       apply Forall2_rev' in F2. rewrite rev_involutive in F2.
       destruct (Forall2_consecutive _ _ _ _ _ F2 C) as (a1 & b1 & C1 & (A1 & (va & A2) & _) & (B1 & (vb & B2) & _)).
-      pose proof (sweep_adj getF setF p1 p2 mk pen blocked dst getF_setF l None 0 true a1 b1 C1) as S.
+      pose proof (sweep_adj getF setF p1 p2 mk pen blocked nt getF_setF l None 0 true a1 b1 C1) as S.
       rewrite A2, B2, A1, B1, !getF_setB. apply S. rewrite <- A1, <- B1. exact Hb.
     - apply consecutive_rev in C.
-      pose proof (sweep_adj getB setB p1 p2 mk pen blocked dst getB_setB (rev l1) None 0 true b a C) as S.
+      pose proof (sweep_adj getB setB p1 p2 mk pen blocked nt getB_setB (rev l1) None 0 true b a C) as S.
       replace (Z.abs (fst b - fst a)) with (Z.abs (fst a - fst b)) by lia.
       apply S. rewrite blocked_sym. exact Hb.
   Qed.
 
   (* non-negativity of all costs is preserved *)
   Lemma sweep_nn_F : forall line carry prev first, vnn carry -> (forall a, In a line -> cnn (snd a)) ->
-    forall b, In b (sweep getF setF p1 p2 mk pen blocked dst carry prev first line) -> cnn (snd b).
+    forall b, In b (sweep getF setF p1 p2 mk pen blocked nt carry prev first line) -> cnn (snd b).
   Proof.
     induction line as [|[x c] t IH]; intros carry prev first Hc Hl b Hin; cbn [sweep] in Hin; [destruct Hin|].
     assert (Hcc : cnn c) by (apply (Hl (x, c)); left; reflexivity).
     match type of Hin with In b ((x, setF c ?v) :: _) => assert (Hv : vnn v) end.
     { apply vnn_vmin; [apply vnn_vmin; [apply nn_getF; assumption|]|].
       - destruct first; [exact I|]. destruct (blocked prev x); [exact I|]. apply vnn_vadd; [lia|assumption].
-      - destruct (zp_eqb (mk x) dst); [exact I|]. apply vnn_vturn; [assumption|].
+      - destruct (nt (mk x)); [exact I|]. apply vnn_vturn; [assumption|].
         apply vnn_vmin; [apply nn_p1|apply nn_p2]; assumption. }
     destruct Hin as [<-|Hin]; [cbn [snd]; apply nn_setF; assumption|].
     eapply IH; [exact Hv| |exact Hin]. intros a Ha. apply Hl. right. assumption.
   Qed.
   Lemma sweep_nn_B : forall line carry prev first, vnn carry -> (forall a, In a line -> cnn (snd a)) ->
-    forall b, In b (sweep getB setB p1 p2 mk pen blocked dst carry prev first line) -> cnn (snd b).
+    forall b, In b (sweep getB setB p1 p2 mk pen blocked nt carry prev first line) -> cnn (snd b).
   Proof.
     induction line as [|[x c] t IH]; intros carry prev first Hc Hl b Hin; cbn [sweep] in Hin; [destruct Hin|].
     assert (Hcc : cnn c) by (apply (Hl (x, c)); left; reflexivity).
     match type of Hin with In b ((x, setB c ?v) :: _) => assert (Hv : vnn v) end.
     { apply vnn_vmin; [apply vnn_vmin; [apply nn_getB; assumption|]|].
       - destruct first; [exact I|]. destruct (blocked prev x); [exact I|]. apply vnn_vadd; [lia|assumption].
-      - destruct (zp_eqb (mk x) dst); [exact I|]. apply vnn_vturn; [assumption|].
+      - destruct (nt (mk x)); [exact I|]. apply vnn_vturn; [assumption|].
         apply vnn_vmin; [apply nn_p1|apply nn_p2]; assumption. }
     destruct Hin as [<-|Hin]; [cbn [snd]; apply nn_setB; assumption|].
     eapply IH; [exact Hv| |exact Hin]. intros a Ha. apply Hl. right. assumption.
@@ -370,7 +372,7 @@ Qed.
 (* ------------------------------------------------------------------ a double sweep over every line of a grid *)
 Section GridSweep.
   Variables (getF : cell -> val) (setF : cell -> val -> cell) (getB : cell -> val) (setB : cell -> val -> cell)
-            (p1 p2 : cell -> val) (mk2 : Z -> Z -> zp) (pen : Z) (blocked2 : Z -> Z -> Z -> bool) (dst : zp).
+            (p1 p2 : cell -> val) (mk2 : Z -> Z -> zp) (pen : Z) (blocked2 : Z -> Z -> Z -> bool) (nt : zp -> bool).
   Hypothesis getF_setF : forall c v, getF (setF c v) = v.
   Hypothesis getB_setF : forall c v, getB (setF c v) = getB c.
   Hypothesis p1_setF : forall c v, p1 (setF c v) = p1 c.
@@ -389,7 +391,7 @@ Section GridSweep.
   Hypothesis nn_p2 : forall c, cnn c -> vnn (p2 c).
 
   Definition line_sweep (k : Z) (l : list (Z * cell)) : list (Z * cell) :=
-    dsweep getF setF getB setB p1 p2 (mk2 k) pen (blocked2 k) dst l.
+    dsweep getF setF getB setB p1 p2 (mk2 k) pen (blocked2 k) nt l.
   Definition gsweep (g : grid) : grid := map (fun row => (fst row, line_sweep (fst row) (snd row))) g.
 
   Lemma gsweep_In k l2 g : In (k, l2) (gsweep g) -> exists l, In (k, l) g /\ l2 = line_sweep k l.
@@ -398,7 +400,7 @@ Section GridSweep.
     exists l. auto.
   Qed.
 
-  Lemma line_sweep_rel k l : Forall2 (ds_rel getF getB p1 p2 (mk2 k) pen dst) l (line_sweep k l).
+  Lemma line_sweep_rel k l : Forall2 (ds_rel getF getB p1 p2 (mk2 k) pen nt) l (line_sweep k l).
   Proof. apply dsweep_rel; auto. Qed.
 
   Lemma gsweep_wf g o i : wf g o i -> wf (gsweep g) o i.
@@ -412,7 +414,7 @@ Section GridSweep.
   Lemma gsweep_rel g a k c1 : At (gsweep g) a k c1 ->
     exists c0, At g a k c0 /\ p1 c1 = p1 c0 /\ p2 c1 = p2 c0 /\
       vle (getF c1) (getF c0) /\ vle (getB c1) (getB c0) /\
-      (zp_eqb (mk2 k a) dst = false ->
+      (nt (mk2 k a) = false ->
          vle (getF c1) (turn_of p1 p2 (mk2 k) pen a c0) /\ vle (getB c1) (turn_of p1 p2 (mk2 k) pen a c0)).
   Proof.
     intros (l2 & H & Hc). destruct (gsweep_In _ _ _ H) as (l & Hl & ->).
@@ -433,18 +435,18 @@ Section GridSweep.
   Proof.
     intros Hg x y c (l2 & H & Hc). destruct (gsweep_In _ _ _ H) as (l & Hl & ->).
     change c with (snd (x, c)).
-    eapply (dsweep_nn getF setF getB setB p1 p2 (mk2 y) pen (blocked2 y) dst); eauto.
+    eapply (dsweep_nn getF setF getB setB p1 p2 (mk2 y) pen (blocked2 y) nt); eauto.
     intros [a0 c0] Ha. cbn [snd]. eapply Hg. exists l. eauto.
   Qed.
 End GridSweep.
 
-Lemma sweep_rows_eq rs pen dst g :
-  sweep_rows rs pen dst g =
-  gsweep cE setE cW setW cN cS (fun y x => (x, y)) pen (fun y a b => hblocked rs (Z.min a b) (Z.max a b) y) dst g.
+Lemma sweep_rows_eq rs pen nt g :
+  sweep_rows rs pen nt g =
+  gsweep cE setE cW setW cN cS (fun y x => (x, y)) pen (fun y a b => hblocked rs (Z.min a b) (Z.max a b) y) nt g.
 Proof. unfold sweep_rows, gsweep. apply map_ext. intros [y l]. reflexivity. Qed.
-Lemma sweep_cols_eq rs pen dst g :
-  sweep_cols rs pen dst g =
-  gsweep cS setS cN setN cE cW (fun x y => (x, y)) pen (fun x a b => vblocked rs (Z.min a b) (Z.max a b) x) dst g.
+Lemma sweep_cols_eq rs pen nt g :
+  sweep_cols rs pen nt g =
+  gsweep cS setS cN setN cE cW (fun x y => (x, y)) pen (fun x a b => vblocked rs (Z.min a b) (Z.max a b) x) nt g.
 Proof. unfold sweep_cols, gsweep. apply map_ext. intros [x l]. reflexivity. Qed.
 
 (* ------------------------------------------------------------------ equal signatures = equal costs, cell by cell *)
@@ -514,14 +516,14 @@ Qed.
 (* ------------------------------------------------------------------ one round *)
 Definition gnn (g : grid) : Prop := forall x y c, At g x y c -> cnn c.
 
-Definition Closed (rs : list rect) (pen : Z) (dst : zp) (xs ys : list Z) (g : grid) : Prop :=
+Definition Closed (rs : list rect) (pen : Z) (nt : zp -> bool) (xs ys : list Z) (g : grid) : Prop :=
   (forall x x' y c c', consecutive xs x x' -> At g x y c -> At g x' y c' ->
      hblocked rs (Z.min x x') (Z.max x x') y = false ->
      vle (cE c') (vadd (cE c) (Z.abs (x' - x))) /\ vle (cW c) (vadd (cW c') (Z.abs (x' - x)))) /\
   (forall x y y' c c', consecutive ys y y' -> At g x y c -> At g x y' c' ->
      vblocked rs (Z.min y y') (Z.max y y') x = false ->
      vle (cS c') (vadd (cS c) (Z.abs (y' - y))) /\ vle (cN c) (vadd (cN c') (Z.abs (y' - y)))) /\
-  (forall x y c, At g x y c -> (x, y) <> dst ->
+  (forall x y c, At g x y c -> nt (x, y) = false ->
      vle (cE c) (vturn (vmin (cN c) (cS c)) pen (x, y)) /\ vle (cW c) (vturn (vmin (cN c) (cS c)) pen (x, y)) /\
      vle (cN c) (vturn (vmin (cE c) (cW c)) pen (x, y)) /\ vle (cS c) (vturn (vmin (cE c) (cW c)) pen (x, y))).
 
@@ -532,7 +534,7 @@ Lemma cnn_set c v : cnn c -> vnn v -> cnn (setN c v) /\ cnn (setE c v) /\ cnn (s
 Proof. unfold cnn. cbn. tauto. Qed.
 
 Section Round.
-  Variables (rs : list rect) (pen : Z) (dst : zp) (xs ys : list Z).
+  Variables (rs : list rect) (pen : Z) (nt : zp -> bool) (xs ys : list Z).
   Hypothesis pen_nn : 0 <= pen.
   Hypothesis NDx : NoDup xs.
   Hypothesis NDy : NoDup ys.
@@ -541,15 +543,15 @@ Section Round.
 
   Let hb := fun y a b => hblocked rs (Z.min a b) (Z.max a b) y.
   Let vb := fun x a b => vblocked rs (Z.min a b) (Z.max a b) x.
-  Let RS := gsweep cE setE cW setW cN cS (fun y x => (x, y)) pen hb dst.
-  Let CS := gsweep cS setS cN setN cE cW (fun x y => (x, y)) pen vb dst.
+  Let RS := gsweep cE setE cW setW cN cS (fun y x => (x, y)) pen hb nt.
+  Let CS := gsweep cS setS cN setN cE cW (fun x y => (x, y)) pen vb nt.
 
   Lemma hb_sym y a b : hb y a b = hb y b a.
   Proof. unfold hb. rewrite Z.min_comm, Z.max_comm. reflexivity. Qed.
   Lemma vb_sym x a b : vb x a b = vb x b a.
   Proof. unfold vb. rewrite Z.min_comm, Z.max_comm. reflexivity. Qed.
 
-  Lemma round_eq g : round rs pen dst g = transpose (CS (transpose (RS g))).
+  Lemma round_eq g : round rs pen nt g = transpose (CS (transpose (RS g))).
   Proof. unfold round, RS, CS. rewrite sweep_rows_eq, sweep_cols_eq. reflexivity. Qed.
 
   Section OneGrid.
@@ -578,27 +580,27 @@ Section Round.
   Lemma round_cell x y c' : At g' x y c' ->
     exists c0 c2, At g x y c0 /\ At G1 x y c2 /\
       cN c2 = cN c0 /\ cS c2 = cS c0 /\ vle (cE c2) (cE c0) /\ vle (cW c2) (cW c0) /\
-      ((x, y) <> dst -> vle (cE c2) (vturn (vmin (cN c0) (cS c0)) pen (x, y)) /\
+      (nt (x, y) = false -> vle (cE c2) (vturn (vmin (cN c0) (cS c0)) pen (x, y)) /\
                          vle (cW c2) (vturn (vmin (cN c0) (cS c0)) pen (x, y))) /\
       cE c' = cE c2 /\ cW c' = cW c2 /\ vle (cS c') (cS c2) /\ vle (cN c') (cN c2) /\
-      ((x, y) <> dst -> vle (cS c') (vturn (vmin (cE c2) (cW c2)) pen (x, y)) /\
+      (nt (x, y) = false -> vle (cS c') (vturn (vmin (cE c2) (cW c2)) pen (x, y)) /\
                          vle (cN c') (vturn (vmin (cE c2) (cW c2)) pen (x, y))).
   Proof.
     intro A. apply At_g'_G3 in A.
-    destruct (gsweep_rel cS setS cN setN cE cW (fun x y => (x, y)) pen vb dst
+    destruct (gsweep_rel cS setS cN setN cE cW (fun x y => (x, y)) pen vb nt
                 ltac:(reflexivity) ltac:(reflexivity) ltac:(reflexivity) ltac:(reflexivity)
                 ltac:(reflexivity) ltac:(reflexivity) ltac:(reflexivity) ltac:(reflexivity) G2 y x c' A)
       as (c2 & A2 & B1 & B2 & B3 & B4 & B5).
     apply At_G2_G1 in A2.
-    destruct (gsweep_rel cE setE cW setW cN cS (fun y x => (x, y)) pen hb dst
+    destruct (gsweep_rel cE setE cW setW cN cS (fun y x => (x, y)) pen hb nt
                 ltac:(reflexivity) ltac:(reflexivity) ltac:(reflexivity) ltac:(reflexivity)
                 ltac:(reflexivity) ltac:(reflexivity) ltac:(reflexivity) ltac:(reflexivity) g x y c2 A2)
       as (c0 & A0 & D1 & D2 & D3 & D4 & D5).
     exists c0, c2. repeat split; try assumption.
-    - apply D5. apply zp_eqb_false. assumption.
-    - apply D5. apply zp_eqb_false. assumption.
-    - apply B5. apply zp_eqb_false. assumption.
-    - apply B5. apply zp_eqb_false. assumption.
+    - apply D5. assumption.
+    - apply D5. assumption.
+    - apply B5. assumption.
+    - apply B5. assumption.
   Qed.
 
   Lemma round_mono x y c' : At g' x y c' ->
@@ -611,15 +613,15 @@ Section Round.
   Lemma round_nn : gnn g -> gnn g'.
   Proof.
     intros Hg x y c A. apply At_g'_G3 in A. revert y x c A.
-    apply (gsweep_nn cS setS cN setN cE cW (fun x y => (x, y)) pen vb dst pen_nn); try (intros c v Hc Hv; apply cnn_set; assumption);
+    apply (gsweep_nn cS setS cN setN cE cW (fun x y => (x, y)) pen vb nt pen_nn); try (intros c v Hc Hv; apply cnn_set; assumption);
       try (intros c Hc; apply Hc).
     intros y x c A. apply At_G2_G1 in A. revert x y c A.
-    apply (gsweep_nn cE setE cW setW cN cS (fun y x => (x, y)) pen hb dst pen_nn); try (intros c v Hc Hv; apply cnn_set; assumption);
+    apply (gsweep_nn cE setE cW setW cN cS (fun y x => (x, y)) pen hb nt pen_nn); try (intros c v Hc Hv; apply cnn_set; assumption);
       try (intros c Hc; apply Hc).
     exact Hg.
   Qed.
 
-  Lemma round_closed : gnn g -> signature g = signature g' -> Closed rs pen dst xs ys g'.
+  Lemma round_closed : gnn g -> signature g = signature g' -> Closed rs pen nt xs ys g'.
   Proof.
     intros Hg Hsig.
     pose proof W1 as HW1. pose proof W3 as HW3. pose proof W4 as HW4.
@@ -639,7 +641,7 @@ Section Round.
       destruct (consecutive_In _ _ _ Ce) as [Ie Ie'].
       assert (e = c2) by (eapply (At_fun G1 ys xs x y); eauto; exists l; auto).
       assert (e' = c2') by (eapply (At_fun G1 ys xs x' y); eauto; exists l; auto). subst e e'.
-      pose proof (gsweep_adj cE setE cW setW cN cS (fun y x => (x, y)) pen hb dst
+      pose proof (gsweep_adj cE setE cW setW cN cS (fun y x => (x, y)) pen hb nt
                     ltac:(reflexivity) ltac:(reflexivity) ltac:(reflexivity) hb_sym
                     g y l (x, c2) (x', c2') Hl Ce Hb) as [M1 M2].
       cbn [fst snd] in M1, M2. rewrite E1, E2, E1', E2'. auto.
@@ -651,7 +653,7 @@ Section Round.
       destruct (consecutive_In _ _ _ Ce) as [Ie Ie'].
       assert (e = c) by (eapply (At_fun G3 xs ys y x); eauto; exists l; auto).
       assert (e' = c') by (eapply (At_fun G3 xs ys y' x); eauto; exists l; auto). subst e e'.
-      pose proof (gsweep_adj cS setS cN setN cE cW (fun x y => (x, y)) pen vb dst
+      pose proof (gsweep_adj cS setS cN setN cE cW (fun x y => (x, y)) pen vb nt
                     ltac:(reflexivity) ltac:(reflexivity) ltac:(reflexivity) vb_sym
                     G2 x l (y, c) (y', c') Hl Ce Hb) as [M1 M2].
       cbn [fst snd] in M1, M2. auto.
@@ -749,7 +751,7 @@ Definition perp (d d' : Z) : Prop :=
   ((d = 0 \/ d = 2) /\ (d' = 1 \/ d' = 3)) \/ ((d = 1 \/ d = 3) /\ (d' = 0 \/ d' = 2)).
 
 Section GridGraph.
-  Variables (rs : list rect) (xs ys : list Z) (pen : Z) (dst : zp).
+  Variables (rs : list rect) (xs ys : list Z) (pen : Z) (nt : zp -> bool).
 
   Inductive gstep : gstate -> gstate -> Z -> Prop :=
   | gs_E x x' y : In y ys -> consecutive xs x x' -> hblocked rs (Z.min x x') (Z.max x x') y = false ->
@@ -760,7 +762,7 @@ Section GridGraph.
                   gstep ((x, y), 2) ((x, y'), 2) (Z.abs (y' - y))
   | gs_N x y y' : In x xs -> consecutive ys y' y -> vblocked rs (Z.min y' y) (Z.max y' y) x = false ->
                   gstep ((x, y), 0) ((x, y'), 0) (Z.abs (y - y'))
-  | gs_turn x y d d' : In x xs -> In y ys -> (x, y) <> dst -> perp d d' ->
+  | gs_turn x y d d' : In x xs -> In y ys -> nt (x, y) = false -> perp d d' ->
                   gstep ((x, y), d) ((x, y), d') pen.
 
   Inductive gwalk (s0 : gstate) : gstate -> Z -> Prop :=
@@ -777,18 +779,18 @@ Lemma vle_Some_turn a C pen p : vle a (Some (C, [])) -> vle (vturn a pen p) (Som
 Proof. destruct a as [[ca pa]|]; cbn; [lia|tauto]. Qed.
 
 Section Walks.
-  Variables (rs : list rect) (xs ys : list Z) (pen : Z) (src dst : zp) (sd : Z) (g : grid).
+  Variables (rs : list rect) (xs ys : list Z) (pen : Z) (src : zp) (nt : zp -> bool) (sd : Z) (g : grid).
   Hypothesis NDx : NoDup xs.
   Hypothesis NDy : NoDup ys.
   Hypothesis Wg : wf g ys xs.
-  Hypothesis Cg : Closed rs pen dst xs ys g.
+  Hypothesis Cg : Closed rs pen nt xs ys g.
   Hypothesis Sx : In (fst src) xs.
   Hypothesis Sy : In (snd src) ys.
   Hypothesis Bg : forall c, At g (fst src) (snd src) c ->
                   forall d, 0 <= d <= 3 -> dir_allowed sd d = true -> vle (fld d c) (Some (0, [])).
 
   Lemma walk_bound d0 : 0 <= d0 <= 3 -> dir_allowed sd d0 = true ->
-    forall st C, gwalk rs xs ys pen dst (src, d0) st C ->
+    forall st C, gwalk rs xs ys pen nt (src, d0) st C ->
       0 <= snd st <= 3 /\ exists c, At g (fst (fst st)) (snd (fst st)) c /\ vle (fld (snd st) c) (Some (C, [])).
   Proof.
     intros Hd0 Ha st C Hw. destruct Cg as (CH & CV & CT).
@@ -889,7 +891,7 @@ Proof.
 Qed.
 
 Section Iterate.
-  Variables (rs : list rect) (pen : Z) (src dst : zp) (sd : Z) (xs ys : list Z).
+  Variables (rs : list rect) (pen : Z) (src : zp) (nt : zp -> bool) (sd : Z) (xs ys : list Z).
   Hypothesis pen_nn : 0 <= pen.
   Hypothesis NDx : NoDup xs.
   Hypothesis NDy : NoDup ys.
@@ -897,33 +899,43 @@ Section Iterate.
   Hypothesis NEy : ys <> [].
 
   Lemma round_inv g : wf g ys xs -> gnn g -> src_ok src sd g ->
-    wf (round rs pen dst g) ys xs /\ gnn (round rs pen dst g) /\ src_ok src sd (round rs pen dst g).
+    wf (round rs pen nt g) ys xs /\ gnn (round rs pen nt g) /\ src_ok src sd (round rs pen nt g).
   Proof.
     intros W Hn Hs. rewrite round_eq. split; [|split].
-    - exact (W4 rs pen dst xs ys NEx NEy g W).
-    - exact (round_nn rs pen dst xs ys pen_nn NEx NEy g W Hn).
+    - exact (W4 rs pen nt xs ys NEx NEy g W).
+    - exact (round_nn rs pen nt xs ys pen_nn NEx NEy g W Hn).
     - intros c' A d Hd Ha.
-      destruct (round_mono rs pen dst xs ys NEx NEy g W _ _ _ A) as (c0 & A0 & M0 & M1 & M2 & M3).
+      destruct (round_mono rs pen nt xs ys NEx NEy g W _ _ _ A) as (c0 & A0 & M0 & M1 & M2 & M3).
       specialize (Hs c0 A0 d Hd Ha).
       assert (D : d = 0 \/ d = 1 \/ d = 2 \/ d = 3) by lia.
       destruct D as [->|[->|[->| ->]]]; cbn [fld Z.eqb] in *; eapply vle_trans; eassumption.
   Qed.
 
   Lemma iterate_inv : forall fuel g g', wf g ys xs -> gnn g -> src_ok src sd g ->
-    iterate fuel rs pen dst g = Some g' ->
-    wf g' ys xs /\ src_ok src sd g' /\ Closed rs pen dst xs ys g'.
+    iterate fuel rs pen nt g = Some g' ->
+    wf g' ys xs /\ src_ok src sd g' /\ Closed rs pen nt xs ys g'.
   Proof.
     induction fuel as [|n IH]; intros g g' W Hn Hs H; cbn [iterate] in H; [discriminate|].
     destruct (round_inv g W Hn Hs) as (W' & Hn' & Hs').
-    destruct (zlist_eqb (signature g) (signature (round rs pen dst g))) eqn:E.
+    destruct (zlist_eqb (signature g) (signature (round rs pen nt g))) eqn:E.
     - inversion H; subst g'. split; [exact W'|]. split; [exact Hs'|].
       apply zlist_eqb_eq in E. revert E. rewrite round_eq. intro E.
-      exact (round_closed rs pen dst xs ys pen_nn NDx NDy NEx NEy g W Hn E).
+      exact (round_closed rs pen nt xs ys pen_nn NDx NDy NEx NEy g W Hn E).
     - eapply IH; eassumption.
   Qed.
 End Iterate.
 
 (* ------------------------------------------------------------------ main theorems *)
+(* the turn restriction used by the search: no turn at the destination and none at the source *)
+Lemma noturn_false src dst p : noturn src dst p = false <-> p <> dst /\ p <> src.
+Proof.
+  unfold noturn. rewrite orb_false_iff. split.
+  - intros [A B]. split; intro E; subst p.
+    + assert (H : zp_eqb dst dst = true) by (apply zp_eqb_spec; reflexivity). congruence.
+    + assert (H : zp_eqb src src = true) by (apply zp_eqb_spec; reflexivity). congruence.
+  - intros [A B]. split; apply zp_eqb_false; assumption.
+Qed.
+
 Section Main.
   Variables (rs : list rect) (src dst : zp) (pen sd ad : Z) (fuel : nat).
   Hypothesis pen_nn : 0 <= pen.
@@ -931,7 +943,7 @@ Section Main.
   Let ys := hanan_ys rs src dst.
 
   Lemma search_facts r : search rs src dst pen sd ad fuel = Some r ->
-    exists g, wf g ys xs /\ src_ok src sd g /\ Closed rs pen dst xs ys g /\
+    exists g, wf g ys xs /\ src_ok src sd g /\ Closed rs pen (noturn src dst) xs ys g /\
       exists c, lookup g dst = Some c /\
         r = match vmin (vmin (if dir_allowed ad 0 then cN c else None) (if dir_allowed ad 1 then cE c else None))
                        (vmin (if dir_allowed ad 2 then cS c else None) (if dir_allowed ad 3 then cW c else None)) with
@@ -944,8 +956,8 @@ Section Main.
     fold xs in NDx, Sx, Dx. fold ys in NDy, Sy, Dy.
     assert (NEx : xs <> []) by (intro E; rewrite E in Sx; destruct Sx).
     assert (NEy : ys <> []) by (intro E; rewrite E in Sy; destruct Sy).
-    destruct (iterate fuel rs pen dst (init_grid xs ys src sd)) as [g|] eqn:It; [|discriminate].
-    destruct (iterate_inv rs pen src dst sd xs ys pen_nn NDx NDy NEx NEy fuel _ g
+    destruct (iterate fuel rs pen (noturn src dst) (init_grid xs ys src sd)) as [g|] eqn:It; [|discriminate].
+    destruct (iterate_inv rs pen src (noturn src dst) sd xs ys pen_nn NDx NDy NEx NEy fuel _ g
                 (init_grid_wf xs ys src sd) (init_grid_nn xs ys src sd) (init_grid_src xs ys src sd) It)
       as (W & Hs & Cl).
     intro H. exists g. split; [exact W|]. split; [exact Hs|]. split; [exact Cl|].
@@ -955,14 +967,14 @@ Section Main.
   Qed.
 
   (* every walk of the grid graph ends with a label below its cost *)
-  Lemma walk_label g c d0 d1 C : wf g ys xs -> src_ok src sd g -> Closed rs pen dst xs ys g ->
+  Lemma walk_label g c d0 d1 C : wf g ys xs -> src_ok src sd g -> Closed rs pen (noturn src dst) xs ys g ->
     lookup g dst = Some c -> 0 <= d0 <= 3 -> dir_allowed sd d0 = true ->
-    gwalk rs xs ys pen dst (src, d0) (dst, d1) C -> 0 <= d1 <= 3 /\ vle (fld d1 c) (Some (C, [])).
+    gwalk rs xs ys pen (noturn src dst) (src, d0) (dst, d1) C -> 0 <= d1 <= 3 /\ vle (fld d1 c) (Some (C, [])).
   Proof.
     intros W Hs Cl L Hd0 Ha Hw.
     destruct (hanan_xs_ok rs src dst) as (NDx & Sx & Dx). destruct (hanan_ys_ok rs src dst) as (NDy & Sy & Dy).
     fold xs in NDx, Sx, Dx. fold ys in NDy, Sy, Dy.
-    destruct (walk_bound rs xs ys pen src dst sd g W Cl Sx Sy Hs d0 Hd0 Ha _ _ Hw) as (Hr & c' & A' & V).
+    destruct (walk_bound rs xs ys pen src (noturn src dst) sd g W Cl Sx Sy Hs d0 Hd0 Ha _ _ Hw) as (Hr & c' & A' & V).
     cbn [fst snd] in *. split; [exact Hr|].
     rewrite (At_fun g ys xs _ _ c c' W NDy NDx (lookup_At _ _ _ L) A'). exact V.
   Qed.
@@ -970,7 +982,7 @@ Section Main.
   Theorem grid_oracle_optimal k p :
     oracle_dirs rs src dst pen sd ad fuel = OR_cost k p ->
     forall d0 d1 C, 0 <= d0 <= 3 -> dir_allowed sd d0 = true -> dir_allowed ad d1 = true ->
-      gwalk rs xs ys pen dst (src, d0) (dst, d1) C -> k <= C.
+      gwalk rs xs ys pen (noturn src dst) (src, d0) (dst, d1) C -> k <= C.
   Proof.
     unfold oracle_dirs. destruct (search rs src dst pen sd ad fuel) as [[[k0 p0]|]|] eqn:S; try discriminate.
     destruct (check_path_dirs rs src dst pen sd ad p0) as [k'|]; try discriminate.
@@ -1001,7 +1013,7 @@ Section Main.
   Theorem grid_oracle_unreachable :
     oracle_dirs rs src dst pen sd ad fuel = OR_unreachable ->
     forall d0 d1 C, 0 <= d0 <= 3 -> dir_allowed sd d0 = true -> dir_allowed ad d1 = true ->
-      ~ gwalk rs xs ys pen dst (src, d0) (dst, d1) C.
+      ~ gwalk rs xs ys pen (noturn src dst) (src, d0) (dst, d1) C.
   Proof.
     unfold oracle_dirs. destruct (search rs src dst pen sd ad fuel) as [[[k0 p0]|]|] eqn:S; try discriminate.
     { destruct (check_path_dirs rs src dst pen sd ad p0) as [k'|]; [destruct (k0 =? k')|]; discriminate. }
@@ -1032,7 +1044,7 @@ End Main.
 Theorem grid_oracle_optimal_plain rs src dst pen fuel k p :
   0 <= pen -> oracle rs src dst pen fuel = OR_cost k p ->
   forall d0 d1 C, 0 <= d0 <= 3 -> 0 <= d1 <= 3 ->
-    gwalk rs (hanan_xs rs src dst) (hanan_ys rs src dst) pen dst (src, d0) (dst, d1) C -> k <= C.
+    gwalk rs (hanan_xs rs src dst) (hanan_ys rs src dst) pen (noturn src dst) (src, d0) (dst, d1) C -> k <= C.
 Proof.
   intros Hp H d0 d1 C Hd0 Hd1 Hw.
   assert (A : forall d, 0 <= d <= 3 -> dir_allowed 15 d = true).
@@ -1049,7 +1061,7 @@ Example ex_hanan : hanan_xs [mkrect 2 0 4 6] (0, 3) (6, 3) = [0; 2; 4; 6] /\
 Proof. split; reflexivity. Qed.
 
 Example ex_walk_32 :
-  gwalk [mkrect 2 0 4 6] [0; 2; 4; 6] [0; 3; 6] 10 (6, 3) ((0, 3), 0) ((6, 3), 2) 32.
+  gwalk [mkrect 2 0 4 6] [0; 2; 4; 6] [0; 3; 6] 10 (noturn (0, 3) (6, 3)) ((0, 3), 0) ((6, 3), 2) 32.
 Proof.
   assert (C01 : consecutive [0; 3; 6] 0 3) by constructor.
   assert (X02 : consecutive [0; 2; 4; 6] 0 2) by constructor.
@@ -1059,11 +1071,11 @@ Proof.
   eapply gw_snoc; [eapply gw_snoc; [eapply gw_snoc; [eapply gw_snoc; [eapply gw_snoc; [eapply gw_snoc;
     [eapply gw_snoc; [apply gw_nil|] |] |] |] |] |] |].
   - apply (gs_N _ _ _ _ _ 0 3 0); [cbn; tauto|exact C01|reflexivity].
-  - apply (gs_turn _ _ _ _ _ 0 0 0 1); [cbn; tauto|cbn; tauto|discriminate|unfold perp; lia].
+  - apply (gs_turn _ _ _ _ _ 0 0 0 1); [cbn; tauto|cbn; tauto|reflexivity|unfold perp; lia].
   - apply gs_E; [cbn; tauto|exact X02|reflexivity].
   - apply gs_E; [cbn; tauto|exact X24|reflexivity].
   - apply gs_E; [cbn; tauto|exact X46|reflexivity].
-  - apply (gs_turn _ _ _ _ _ 6 0 1 2); [cbn; tauto|cbn; tauto|discriminate|unfold perp; lia].
+  - apply (gs_turn _ _ _ _ _ 6 0 1 2); [cbn; tauto|cbn; tauto|reflexivity|unfold perp; lia].
   - apply gs_S; [cbn; tauto|exact C01|reflexivity].
 Qed.
 
@@ -1074,5 +1086,22 @@ Proof. reflexivity. Qed.
 Example ex_optimal_attained :
   exists p, oracle [mkrect 2 0 4 6] (0, 3) (6, 3) 10 20 = OR_cost 32 p /\
             gwalk [mkrect 2 0 4 6] (hanan_xs [mkrect 2 0 4 6] (0, 3) (6, 3)) (hanan_ys [mkrect 2 0 4 6] (0, 3) (6, 3))
-                  10 (6, 3) ((0, 3), 0) ((6, 3), 2) 32.
+                  10 (noturn (0, 3) (6, 3)) ((0, 3), 0) ((6, 3), 2) 32.
 Proof. eexists. split; [vm_compute; reflexivity|exact ex_walk_32]. Qed.
+
+(* direction-restricted endpoints (libavoid ConnDirFlags of free-floating connector ends; sd = mask of allowed directions of the FIRST
+   segment, ad = mask of allowed travel directions of the LAST segment, i.e. the reverse of the side of the target the connector
+   attaches to): source (0,3) may only be left northwards (towards smaller y), the target (6,3) entered travelling south; the
+   cheapest such path is again the detour over the top, and the lower bound is attained by the same walk.  With the source
+   restricted to leave WEST (sd = 8) the oracle has to go round the far side of the Hanan grid - there is no turn at the source. *)
+Example ex_dirs_attained :
+  exists p, oracle_dirs [mkrect 2 0 4 6] (0, 3) (6, 3) 10 1 4 20 = OR_cost 32 p /\
+            gwalk [mkrect 2 0 4 6] (hanan_xs [mkrect 2 0 4 6] (0, 3) (6, 3)) (hanan_ys [mkrect 2 0 4 6] (0, 3) (6, 3))
+                  10 (noturn (0, 3) (6, 3)) ((0, 3), 0) ((6, 3), 2) 32 /\
+            dir_allowed 1 0 = true /\ dir_allowed 4 2 = true.
+Proof. eexists. split; [vm_compute; reflexivity|]. split; [exact ex_walk_32|split; reflexivity]. Qed.
+
+Example ex_no_turn_at_source :
+  oracle_dirs [mkrect 2 0 4 6] (0, 3) (6, 3) 10 8 15 20 = OR_unreachable /\
+  exists p, oracle_dirs [mkrect 2 0 4 6; mkrect (-3) 0 (-3) 6] (0, 3) (6, 3) 10 8 15 20 = OR_cost 48 p.
+Proof. split; [vm_compute; reflexivity|]. eexists. vm_compute. reflexivity. Qed.
